@@ -154,6 +154,37 @@ def job_metrics(nr, ne, same_base):
                bounds=dict(ref_frames=nr, est_frames=ne), timeout_s=1200)
 
 
+def job_metrics_resampled(nr, ne):
+    """metrics() on an estimate with its own time base equals metrics() on the estimate re-expressed on the reference's time
+    base by resample_multipitch (whose nearest-frame / empty-outside contract is the job above), whenever the two time bases
+    clearly differ: different lengths, or some time stamp off by more than 1e-3 (1 + |t|) - far outside any closeness tolerance"""
+    def build(ctx):
+        rt = C.events(ctx, 'rt', nr, strict=True)
+        et = C.events(ctx, 'et', ne, strict=True)
+        # concrete pitches (frame i holds 220 (i+1) Hz in both annotations): the scores then depend on the frame mapping only
+        rf = [np.array([220.0 * (i + 1)]) for i in range(nr)]
+        ef = [np.array([220.0 * (i + 1)]) for i in range(ne)]
+        return dict(rt=rt, rf=rf, et=et, ef=ef)
+
+    def body(A, inp):
+        rt, et = inp['rt'], inp['et']
+        res = MP.metrics(rt, inp['rf'], et, inp['ef'])
+        est2 = MP.resample_multipitch(et, list(inp['ef']), rt)
+        res2 = MP.metrics(rt, inp['rf'], rt.copy(), est2)
+        differ = nr != ne
+        if nr == ne:
+            for i in range(nr):
+                d = abs(et[i] - rt[i])
+                differ = A.Or(differ, A.xgt(d, 1e-3 * (1 + rt[i])))
+        same = True
+        for i in range(14):
+            A.observe('m%d' % i, res[i])
+            same = A.And(same, A.eq(res[i], res2[i]))
+        A.require(A.Implies(differ, same), 'metrics:differing-time-base=>scores-of-the-resampled-estimate')
+    return Job('C18', 'metrics-vs-resampled[%d ref frames,%d est frames]' % (nr, ne), build, body, exact_floats=False,
+               funcs=['multipitch.metrics', 'multipitch.resample_multipitch'], bounds=dict(ref_frames=nr, est_frames=ne), timeout_s=1200)
+
+
 def jobs(tier):
     q = tier == 'quick'
     js = [job_accounting(F) for F in ((1, 2, 3) if q else (1, 2, 3, 4, 5))]
@@ -162,7 +193,11 @@ def jobs(tier):
     js.append(job_resample_empty())
     js.append(job_metrics(2, 2, True))
     js.append(job_metrics(2, 2, False))
+    js.append(job_metrics_resampled(1, 1))
+    js.append(job_metrics_resampled(2, 2))
     if not q:
         js.append(job_metrics(2, 3, False))
         js.append(job_metrics(3, 2, False))
+        js.append(job_metrics_resampled(2, 1))
+        js.append(job_metrics_resampled(3, 3))
     return js
